@@ -72,3 +72,16 @@ M("c17-undirected-bfs", "C17", "toposort: BFS over the undirected graph from fir
   "    sorted_edges = [e if e in edges else (e[1], e[0]) for e in nx.bfs_edges(dg.to_undirected(), edges[0][0])]\n    sorted_edge_inds = tuple([edges.index(edge) for edge in sorted_edges])\n")
 M("c17-dfs-postorder", "C17", "toposort: reversed dfs edge order for deep trees", PG,
   "    sorted_edges = nx.bfs_edges(dg, root_ind)\n", "    sorted_edges = list(nx.bfs_edges(dg, root_ind))\n    if len(edges) >= 5:\n        sorted_edges = sorted_edges[:2] + sorted_edges[2:][::-1]\n")
+
+EV = "sleap_nn/evaluation.py"
+TU = "sleap_nn/tracking/utils.py"
+M("c15-missing-pred-zero-dist", "C15", "missing prediction distance set to 0", EV, "    distance[:, missing_pr] = np.inf\n", "    distance[:, missing_pr] = 0\n")
+M("c15-divide-all-nodes", "C15", "OKS divided by all nodes", EV, "    oks = np.sum(ks, axis=-1) / n_visible_gt\n", "    oks = np.sum(ks, axis=-1) / n_nodes\n")
+M("c15-gt-not-popped", "C15", "matched gt not removed", EV, "        instance_gt_idx = available_instances_gt_idxs.pop(best_match_gt_idx)\n", "        instance_gt_idx = available_instances_gt_idxs[best_match_gt_idx]\n")
+M("c15-oks-revert", "C15", "revert compute_oks broadcast fix", EV, "ks[np.broadcast_to(np.expand_dims(missing_gt, axis=1), ks.shape)] = 0", "ks[np.expand_dims(missing_gt, axis=1)] = 0")
+M("c15-match-revert", "C15", "revert empty-gt guard", EV, "        # Nothing left to match against (e.g. a frame without ground truth instances).\n        if not available_instances_gt_idxs:\n            break\n\n", "")
+M("c15-thr-ge", "C15", "threshold <= -> <", EV, "        oks[oks <= threshold] = np.nan\n", "        oks[oks < threshold] = np.nan\n")
+M("c15-greedy-desc", "C15", "greedy argsort descending", TU, "np.unravel_index(np.argsort(cost_matrix, axis=None), cost_matrix.shape)", "np.unravel_index(np.argsort(-cost_matrix, axis=None), cost_matrix.shape)")
+M("c15-greedy-row-only", "C15", "greedy removes only row conflicts", TU, "if unassigned_edges[i][0] == row_ind or unassigned_edges[i][1] == col_ind:", "if unassigned_edges[i][0] == row_ind:")
+M("c15-iou-no-plus1", "C15", "iou intersection without +1 on y", TU, "ymax_intersection - ymin_intersection + 1\n", "ymax_intersection - ymin_intersection\n")
+M("c15-missing-gt-mask", "C15", "missing gt uses all() instead of any()", EV, "    missing_gt = np.any(np.isnan(points_gt), axis=-1)  # (n_gt, n_nodes)", "    missing_gt = np.all(np.isnan(points_gt), axis=-1)  # (n_gt, n_nodes)")
